@@ -265,6 +265,16 @@ void end_run(const ShapeDesc& sd, RunCtl& ctl, RunState& rs) {
   std::map<int, int> sorted(w.calls.begin(), w.calls.end());
   for (auto& kv : sorted) ss << " " << kv.first << ":" << kv.second;
   o.summary = ss.str();
+  { // order of the observable events: ranks of the harness clock values (the clock itself also ticks on non-observable bookkeeping)
+    std::vector<std::pair<long, std::string>> evs;
+    for (size_t l = 0; l < w.runs.size(); ++l) for (size_t i = 0; i < w.runs[l].size(); ++i) { auto& r = w.runs[l][i];
+      if (r.t_start >= 0) evs.push_back({r.t_start, vk::sfmt("s%zu.%zu@%d", l, i, r.start_ctx)});
+      if (r.t_complete >= 0) evs.push_back({r.t_complete, vk::sfmt("c%zu.%zu", l, i)}); }
+    if (w.t_root >= 0) evs.push_back({w.t_root, "ROOT"});
+    std::sort(evs.begin(), evs.end());
+    std::string ord; for (auto& e : evs) { ord += e.second; ord += ' '; }
+    o.order = ord;
+  }
   sr::world_ptr() = nullptr;
 }
 
@@ -326,6 +336,7 @@ void vk_run_case(vk::Choice& c) {
       cx.fail("C02", "poison_differential", "behaviour depends on the previous contents of the operation-state storage: fill %02x -> [%s], fill %02x -> [%s] [%s]", saved.poison, first.summary.c_str(), (uint8_t)~saved.poison, ctl.out.summary.c_str(), sd.text);
     cx.label("poison-differential");
   }
+  cx.digest = first.summary + " | order " + first.order;
   // classification
   const Outcome& o = first;
   int depth = 0; { std::function<int(int)> dp = [&](int i) { int m = 0; for (int k = 0; k < sd.nodes[i].nchild; ++k) m = std::max(m, dp(sd.nodes[i].child[k])); return m + 1; }; depth = dp(sd.root); }
